@@ -100,14 +100,32 @@ func runC01(c *Ctx) {
 	}
 	c.S.Floor("R1", "verification cores (exported functions of package verify reaching x509 CheckSignature through unexported helpers)", 1, len(cores))
 	c.S.Floor("R2", "chain-check functions (callers of x509 Verify in package verify)", 1, len(chains))
-	isChain := func(f *ssa.Function) bool {
-		for _, g := range chains {
-			if f == g {
-				return true
+	// a chain check is the (cert bytes, roots, time) function; when the Verify call sits in an unexported helper with
+	// a single caller, the caller is the chain check (see R2)
+	chainTop := map[*ssa.Function]bool{}
+	for _, d := range chains {
+		ch := d
+		for i := 0; i < 2; i++ {
+			if len(ch.Params) == 3 && isCertBytes(ch.Params[0].Type()) {
+				break
 			}
+			var callers []*ssa.Function
+			if node := c.P.CallGraph().Nodes[ch]; node != nil {
+				for _, e := range node.In {
+					if e.Site != nil && e.Site.Common().StaticCallee() == ch && load.RelPkg(e.Caller.Func) == "verify" && !c.isTestFunc(e.Caller.Func) {
+						callers = append(callers, e.Caller.Func)
+					}
+				}
+			}
+			if len(callers) != 1 || (ch.Object() != nil && ch.Object().Exported()) {
+				break
+			}
+			chainTop[ch] = true // the helper belongs to the chain check too
+			ch = callers[0]
 		}
-		return false
+		chainTop[ch] = true
 	}
+	isChain := func(f *ssa.Function) bool { return chainTop[f] }
 	isCore := func(f *ssa.Function) bool {
 		for _, g := range cores {
 			if f == g {
@@ -365,16 +383,71 @@ func runC01(c *Ctx) {
 	}
 
 	// ---------------- R2 ----------------
-	for _, ch := range chains {
+	for _, direct := range chains {
+		// the chain check is the function with (cert bytes, roots, time) parameters; the Verify call itself may sit in
+		// an unexported helper that function calls (chainsToRootsAt(cert, roots, now)): lift to the single caller
+		ch := direct
+		chRegion := map[*ssa.Function]bool{}
+		viaSite := map[*ssa.Function]ssa.CallInstruction{} // helper → its one call site
+		for i := 0; i < 2 && len(ch.Params) != 3 || (i < 2 && len(ch.Params) == 3 && !isCertBytes(ch.Params[0].Type())); i++ {
+			var sites []ssa.CallInstruction
+			var caller *ssa.Function
+			if node := c.P.CallGraph().Nodes[ch]; node != nil {
+				for _, e := range node.In {
+					if e.Site != nil && e.Site.Common().StaticCallee() == ch && load.RelPkg(e.Caller.Func) == "verify" && !c.isTestFunc(e.Caller.Func) {
+						sites = append(sites, e.Site)
+						caller = e.Caller.Func
+					}
+				}
+			}
+			if len(sites) != 1 || (ch.Object() != nil && ch.Object().Exported()) {
+				break
+			}
+			chRegion[ch] = true
+			viaSite[ch] = sites[0]
+			ch = caller
+		}
+		// resolve a helper's parameter to what the chain function passes for it
+		var resolve func(v ssa.Value) ssa.Value
+		resolve = func(v ssa.Value) ssa.Value {
+			for i := 0; i < 3; i++ {
+				p, ok := v.(*ssa.Parameter)
+				if !ok || p.Parent() == ch {
+					return v
+				}
+				site, ok := viaSite[p.Parent()]
+				if !ok {
+					return v
+				}
+				idx := -1
+				for j, q := range p.Parent().Params {
+					if q == p {
+						idx = j
+					}
+				}
+				if idx < 0 || idx >= len(site.Common().Args) {
+					return v
+				}
+				v = site.Common().Args[idx]
+			}
+			return v
+		}
 		name := load.FuncName(ch)
 		if len(ch.Params) != 3 {
 			c.S.Unk("R2", name+":signature", c.pos(ch.Pos()), "chain check does not have (cert bytes, roots, time) parameters")
 			continue
 		}
+		// the same-package helpers the chain function is split into (guards, the Verify call) are summarised
+		for _, g := range unexportedRegion(ch) {
+			if g != ch {
+				chRegion[g] = true
+			}
+		}
 		const bV uint = 0
 		verifyCalls := 0
 		r := &esp.Rule{Name: "C01.R2"}
-		r.Relevant = func(*ssa.Function) bool { return false }
+		r.Relevant = func(g *ssa.Function) bool { return chRegion[g] }
+		r.Track = func(v ssa.Value) bool { return v == ssa.Value(ch.Params[1]) }
 		r.Match = func(in ssa.Instruction) []esp.Ev {
 			if call, ok := in.(ssa.CallInstruction); ok && calleeIs(call, x509Verify) {
 				verifyCalls++
@@ -383,8 +456,28 @@ func runC01(c *Ctx) {
 			return nil
 		}
 		r.Step = func(x *esp.Ctx, s esp.State, ev esp.Ev, ph esp.Phase) (esp.State, string) {
-			if ph == esp.AtCall && x.Eval(ch.Params[1]) != esp.NonZero {
-				return s, "R2: Verify reachable while the root pool may be nil (a nil pool silently means the system roots)"
+			if ph == esp.AtCall {
+				// the pool this Verify call is given: the Roots field of its options literal (a helper's own parameter
+				// carries the caller's knowledge about it), else the chain function's pool parameter
+				var pool ssa.Value = ch.Params[1]
+				if call, ok := x.Instr.(ssa.CallInstruction); ok && len(call.Common().Args) >= 2 {
+					if ld, ok := call.Common().Args[1].(*ssa.UnOp); ok {
+						if al, ok := ld.X.(*ssa.Alloc); ok {
+							for _, ref := range *al.Referrers() {
+								if fa, ok := ref.(*ssa.FieldAddr); ok && flow.FieldName(fa) == "Roots" {
+									for _, r2 := range *fa.Referrers() {
+										if st, ok := r2.(*ssa.Store); ok && st.Addr == fa {
+											pool = st.Val
+										}
+									}
+								}
+							}
+						}
+					}
+				}
+				if x.Eval(pool) != esp.NonZero {
+					return s, "R2: Verify reachable while the root pool may be nil (a nil pool silently means the system roots)"
+				}
 			}
 			if ph == esp.Ok {
 				return s.Set(bV), ""
@@ -403,8 +496,14 @@ func runC01(c *Ctx) {
 		if n == 0 {
 			c.S.OK("R2", name+":paths", c.pos(ch.Pos()), fmt.Sprintf("nil return only after Verify:ok; Verify only with roots≠nil (%d configurations)", e.Configs), true)
 		}
-		for _, vc := range callsIn(ch, func(call ssa.CallInstruction) bool { return calleeIs(call, x509Verify) }) {
-			a := vc.Common().Args
+		var vcalls []ssa.CallInstruction
+		vcalls = append(vcalls, callsIn(ch, func(call ssa.CallInstruction) bool { return calleeIs(call, x509Verify) })...)
+		for g := range chRegion {
+			vcalls = append(vcalls, callsIn(g, func(call ssa.CallInstruction) bool { return calleeIs(call, x509Verify) })...)
+		}
+		for _, vc := range vcalls {
+			a := append([]ssa.Value(nil), vc.Common().Args...)
+			a[0] = resolve(a[0])
 			// receiver parsed from param 0
 			recvOK := false
 			if ex, ok := a[0].(*ssa.Extract); ok {
@@ -435,7 +534,7 @@ func runC01(c *Ctx) {
 				fnames = append(fnames, k)
 			}
 			sort.Strings(fnames)
-			ok := okLit && len(fields) == 2 && fields["Roots"] == ch.Params[1] && fields["CurrentTime"] == ch.Params[2]
+			ok := okLit && len(fields) == 2 && fields["Roots"] != nil && fields["CurrentTime"] != nil && resolve(fields["Roots"]) == ssa.Value(ch.Params[1]) && resolve(fields["CurrentTime"]) == ssa.Value(ch.Params[2])
 			c.S.Check(ok, "R2", name+":verify options", c.pos(vc.Pos()), "VerifyOptions = {Roots: parameter 1, CurrentTime: parameter 2}", fmt.Sprintf("VerifyOptions is not exactly {Roots: caller roots, CurrentTime: caller time}; fields set: %v", fnames))
 			// returned certificate is the verified one
 			retOK := true
@@ -502,6 +601,9 @@ func runC01(c *Ctx) {
 					}
 					switch x := v.(type) {
 					case *ssa.Call:
+						if cal := x.Call.StaticCallee(); cal != nil && cal.Pkg == f.Pkg && cal.Blocks != nil {
+							return true // a helper of the builder: the slicer descends into what it returns
+						}
 						if cal := x.Call.StaticCallee(); cal == nil || cal.String() != "crypto/x509.NewCertPool" {
 							bad = "the pool returned comes from " + callName(x)
 						}
@@ -523,7 +625,7 @@ func runC01(c *Ctx) {
 		c.S.Floor("R3c", "root-of-trust pool builders in the CLI", 1, len(bs))
 	}
 	for _, f := range c.P.RepoFunctions() {
-		if c.isTestFunc(f) || !returnsError(f) || isChain(f) {
+		if c.isTestFunc(f) || !returnsError(f) || isChain(f) || poolBuilders[f] {
 			continue
 		}
 		rel := load.RelPkg(f)
@@ -1085,3 +1187,5 @@ func unexportedRegion(top *ssa.Function) []*ssa.Function {
 	sort.Slice(out, func(i, j int) bool { return out[i].Pos() < out[j].Pos() })
 	return out
 }
+
+func isCertBytes(t types.Type) bool { return t.String() == "[]byte" }
